@@ -6,7 +6,8 @@ from ..locks import lockinfo, Summaries, callees, LOCK, UNLOCK, BARRIER
 EXPLANATION = ("C10: structural conditions for terminating teardown: no lock re-entry and no lock-order cycle on any "
                "call chain, every mutex released on every exit, no inline completion or blocking wait under a provider "
                "lock, hold/release pairing of object references on every path, aio field completeness "
-               "(close/stop/fini slots), teardown ordering in pipe_reap / sock_shutdown, handle validity guards.")
+               "(close/stop/fini slots), teardown ordering in pipe_reap / sock_shutdown, handle validity guards."
+               " Also: references taken with find/hold/create are released or consumed on every path and never released before they were taken (R1); close functions examine every parked operation on every path (R5); a conditional wake counts only if its guard is established for the waiter (R9).")
 
 INLINE = ("nni_aio_finish_sync", "nni_aio_completions_run", "nni_task_exec")
 BLOCKING = ("nni_aio_stop", "nni_aio_wait", "nni_task_wait", "nni_thr_fini", "nni_thr_wait", "nni_aio_fini",
